@@ -171,7 +171,9 @@ func (this *ETHHandler) SyncBlockHeader(native *native.NativeService) error {
 
 		//verify difficulty
 		var expected *big.Int
-		if isArrowGlacier(&header) {
+		if isGrayGlacier(&header) {
+			expected = makeDifficultyCalculator(big.NewInt(11_400_000))(header.Time, parentHeader)
+		} else if isArrowGlacier(&header) {
 			expected = makeDifficultyCalculator(big.NewInt(10_700_000))(header.Time, parentHeader)
 		} else if isLondon(&header) {
 			expected = makeDifficultyCalculator(big.NewInt(9700000))(header.Time, parentHeader)
